@@ -206,6 +206,82 @@ func futureNeverFilled(ctxWaiters int, deadline bool) Scenario {
 	}}
 }
 
+// watchableSequential: one thread; the same value set twice is still two Sets (the channel handed out
+// between them is closed by the second), also for element types that cannot be compared.
+func watchableSequential() Scenario {
+	return Scenario{"watchable/sequential/same-value-twice-and-non-comparable-values", func() {
+		closed := func(c <-chan struct{}) bool {
+			select {
+			case <-c:
+				return true
+			default:
+				return false
+			}
+		}
+		var w xsync.Watchable[int]
+		v0, c0 := w.Value()
+		if v0 != 0 || closed(c0) {
+			hx.Fail("watchable-initial", "before any Set: Value() = %d, channel closed: %v", v0, closed(c0))
+		}
+		w.Set(1)
+		v1, c1 := w.Value()
+		w.Set(1)
+		v2, c2 := w.Value()
+		if !closed(c0) || v1 != 1 || !closed(c1) || v2 != 1 || closed(c2) {
+			hx.Fail("watchable-same-value", "Set(1); v1,c1 := Value(); Set(1); v2,c2 := Value(): v1=%d v2=%d, closed(c0)=%v closed(c1)=%v (want true: a later Set has happened) closed(c2)=%v (want false)", v1, v2, closed(c0), closed(c1), closed(c2))
+		}
+		w.Set(0) // the zero value is a value like any other
+		v3, c3 := w.Value()
+		if !closed(c2) || v3 != 0 || closed(c3) {
+			hx.Fail("watchable-zero-value", "after Set(0): Value() = %d, closed(c2)=%v, closed(c3)=%v", v3, closed(c2), closed(c3))
+		}
+		var ws xsync.Watchable[[]int]
+		ws.Set([]int{1})
+		_, cs := ws.Value()
+		ws.Set([]int{1})
+		vs, cs2 := ws.Value()
+		if !closed(cs) || closed(cs2) || len(vs) != 1 {
+			hx.Fail("watchable-non-comparable", "Watchable[[]int]: after two Sets Value() = %v, closed(first channel)=%v, closed(latest)=%v", vs, closed(cs), closed(cs2))
+		}
+		var wf xsync.Watchable[func() int]
+		wf.Set(func() int { return 1 })
+		_, cf := wf.Value()
+		wf.Set(func() int { return 2 })
+		f, _ := wf.Value()
+		if !closed(cf) || f() != 2 {
+			hx.Fail("watchable-non-comparable", "Watchable[func() int]: second Set not visible")
+		}
+		hx.Outcome("ok")
+	}}
+}
+
+// lazyNil: the function's result is a nil interface value (e.g. a nil error): every caller gets it.
+func lazyNil(callers int) Scenario {
+	return Scenario{fmt.Sprintf("lazy/nil-interface-result/callers=%d", callers), func() {
+		runs := 0
+		l := xsync.Lazy(func() error {
+			hx.Atomically(func() { runs++ })
+			hx.Yield()
+			return nil
+		})
+		var wg sync.WaitGroup
+		for i := 0; i < callers; i++ {
+			wg.Add(1)
+			go func() {
+				defer wg.Done()
+				if err := l(); err != nil {
+					hx.Fail("lazy-wrong-result", "a caller got %v, the function returned nil", err)
+				}
+			}()
+		}
+		wg.Wait()
+		if err := l(); err != nil || runs != 1 {
+			hx.Fail("lazy-wrong-result", "later call returned %v; the function ran %d times", err, runs)
+		}
+		hx.Outcome("ok")
+	}}
+}
+
 func lazy(callers int) Scenario {
 	return Scenario{fmt.Sprintf("lazy/callers=%d", callers), func() {
 		runs := 0
@@ -301,6 +377,6 @@ func All() []Scenario {
 		watchable([][]int{{1, 2}}, 2),
 		future(1, 0), future(2, 0), future(1, 1), future(0, 2),
 		futureNeverFilled(1, false), futureNeverFilled(2, false), futureNeverFilled(1, true),
-		lazy(2), lazy(3), lazyPanic(2),
+		lazy(2), lazy(3), lazyPanic(2), lazyNil(2), watchableSequential(),
 	}
 }
